@@ -76,11 +76,12 @@ impl RawParameters {
                 // names used further down, whatever their lexical order
                 if value.trim_start().starts_with('$') {
                     let argument = BTreeMap::from([(key.clone(), value.clone())]);
-                    if let Ok(Some(resolved)) =
-                        super::parsed_parameters::chase(&self.globals, &argument, &key)
-                    {
-                        value = resolved;
-                    }
+                    value = match super::parsed_parameters::chase(&self.globals, &argument, &key) {
+                        Ok(Some(resolved)) => resolved,
+                        // Not given by the caller: keep it unresolvable (no parameter name
+                        // contains a blank), rather than let it find a namesake further down
+                        _ => format!("$unresolved {}", value.trim().trim_start_matches('$')),
+                    };
                 }
                 globals.insert(key, value);
             }
